@@ -751,6 +751,17 @@ def cmdBodyWrite (args : List String) : String :=
   | ub :: us :: ps => BodyWriter.run (ps.map parsePrefix) (parseNums us) ub.toNat!
   | _ => "bad-args"
 
+/-- `ndbounds <ub> <n> <prefix> ...`: what the literal `NumDecompressor::new` computes — the two per-block bit bounds
+that gate the unchecked path and the GCD switch -/
+def cmdNdBounds (args : List String) : String :=
+  match args with
+  | ub :: n :: ps =>
+    match NumDec.newDec ub.toNat! n.toNat! (ps.map parsePrefix) with
+    | .ok dec => s!"ok {dec.maxBitsPerNumBlock} {dec.maxOvershootPerNumBlock} {b01 dec.useGcd}"
+    | .err k => s!"err:{k}"
+    | .panic => "panic"
+  | _ => "bad-args"
+
 /-- `numdec <bits> <n> <n_processed> <inc idx:reps|-> <limit> <eoi> <bit_idx> <bytes hex|-> <prefix> ...` -/
 def cmdNumDec (args : List String) : String :=
   match args with
@@ -782,6 +793,7 @@ def answer (line : String) : String :=
   | "fields" :: args => cmdFields args
   | "bodywrite" :: args => cmdBodyWrite args
   | "numdec" :: args => cmdNumDec args
+  | "ndbounds" :: args => cmdNdBounds args
   | "floatfns" :: args => cmdFloatFns gbFloat args
   | "ts" :: args => cmdTs args
   | "bwords" :: args => cmdBits "bwords" args
